@@ -4,3 +4,4 @@ import EpsicDriver.OpsAlias
 import EpsicDriver.OpsLin
 import EpsicDriver.OpsEst
 import EpsicDriver.OpsEig
+import EpsicDriver.OpsSim
